@@ -132,3 +132,66 @@ func zzC17HRRChangesOnlyAllowed() {
 		verifAssertClass(!has, "no-cookie-when-none-sent", p.name)
 	}
 }
+
+//verif:harness C17 hrr_cookie_into_small_spec unwind=24 loopcut=1 instrs=400000000 paths=20000
+//verif:stub (*utls.Conn).readHandshake zzStubReadHandshake
+//verif:stub (*utls.Conn).sendAlert zzStubSendAlert
+//verif:stub (*utls.prng).Read zzStubPrngRead
+//verif:expect retried
+//verif:assume transcript hash is an uninterpreted function; key generation returns arbitrary keys; the PRNG stream that places the cookie is arbitrary
+//verif:doc processHelloRetryRequest on custom TLS 1.3 specs with very few extensions - {key_share}, {supported_versions, key_share}, {supported_groups, supported_versions, key_share}, the same with a trailing FakePreSharedKey - and a HelloRetryRequest carrying a 2-byte cookie (and, where supported_groups is present, a request for P-256): no panic for any PRNG value (the insertion index is computed from len(Extensions)-2, which is 0 or negative here), the second hello passes the strict grammar, carries the cookie exactly once, and a pre_shared_key extension stays last.
+func zzC17HRRCookieIntoSmallSpec() {
+	ks := &KeyShareExtension{KeyShares: []KeyShare{{Group: X25519}}}
+	sv := &SupportedVersionsExtension{Versions: []uint16{VersionTLS13}}
+	sg := &SupportedCurvesExtension{Curves: []CurveID{X25519, CurveP256}}
+	shapes := [][]TLSExtension{{ks}, {sv, ks}, {sg, sv, ks}, {sg, sv, ks, &FakePreSharedKeyExtension{Identities: []PskIdentity{{Label: []byte{1, 2}, ObfuscatedTicketAge: 5}}, Binders: [][]byte{make([]byte, 32)}}}}
+	si := verifChoice("spec-shape", len(shapes))
+	spec := ClientHelloSpec{TLSVersMin: VersionTLS13, TLSVersMax: VersionTLS13, CipherSuites: []uint16{TLS_AES_128_GCM_SHA256}, CompressionMethods: []uint8{0}, Extensions: shapes[si]}
+	cfg := zzConfig("example.com")
+	conn := &zzRecConn{}
+	uc := UClient(conn, cfg, HelloCustom)
+	if err := uc.ApplyPreset(&spec); err != nil {
+		verifFail("apply-preset", "")
+		return
+	}
+	if err := uc.BuildHandshakeState(); err != nil {
+		verifFail("build", "")
+		return
+	}
+	hs := uc.HandshakeState.toPrivate13()
+	hs.hello = uc.HandshakeState.Hello.getPrivatePtr()
+	hs.transcript = &zzUFHash{}
+	hs.suite = cipherSuiteTLS13ByID(TLS_AES_128_GCM_SHA256)
+	cookie := verifBytes("cookie", 2)
+	var group CurveID
+	if si >= 2 && verifBool("request-p256") {
+		group = CurveP256
+	}
+	hs.serverHello = &serverHelloMsg{vers: VersionTLS12, random: helloRetryRequestRandom, sessionId: hs.hello.sessionId, cipherSuite: TLS_AES_128_GCM_SHA256,
+		supportedVersion: VersionTLS13, selectedGroup: group, cookie: cookie}
+	zzInbox = nil
+	zzAlerts = nil
+	herr := hs.processHelloRetryRequest()
+	if si == 3 {
+		// uTLS refuses to re-process a PSK after a HelloRetryRequest (known finding of C19): nothing more to check
+		verifReach("retried")
+		return
+	}
+	// the scripted inbox is empty: the function ends with the EOF of readHandshake after having sent the second hello
+	verifAssert(herr != nil, "ends-at-scripted-eof")
+	second := uc.HandshakeState.Hello.Raw
+	h2, why := zzRefParseClientHello(second)
+	verifAssertClass(why == "", "second-hello-parses-strictly", why)
+	if why != "" {
+		return
+	}
+	n := 0
+	for _, e := range h2.exts {
+		if e.typ == 44 {
+			n++
+			verifAssert(zzBytesEq(e.body, zzVec16(cookie)), "cookie-echoed")
+		}
+	}
+	verifAssert(n == 1, "cookie-exactly-once")
+	verifReach("retried")
+}
